@@ -57,3 +57,8 @@ func gvcArmed(ch chan context.Context) context.Context { panic("ghost") }
 
 // gvcFresh(x): x was allocated during the call.
 func gvcFresh(x any) bool { panic("ghost") }
+
+// gvcRegion / gvcOff: identity of the backing array of a slice and the offset of its
+// first element in it (ghost observers; executable approximations are not needed).
+func gvcRegion[T any](s []T) int { panic("ghost") }
+func gvcOff[T any](s []T) int    { panic("ghost") }
